@@ -919,26 +919,24 @@ class ProtobufReader(Converter):
         lifted_problem: unified_planning.model.Problem,
     ) -> unified_planning.engines.CompilerResult:
         problem = self.convert(result.problem, lifted_problem.environment)
-        map: Dict[
-            unified_planning.model.Action,
-            Tuple[unified_planning.model.Action, List[unified_planning.model.FNode]],
-        ] = {}
-        for grounded_action in problem.actions:
-            original_action_instance = self.convert(
-                result.map_back_plan[grounded_action.name], lifted_problem
-            )[1]
-            map[grounded_action] = (
-                original_action_instance.action,
-                original_action_instance.actual_parameters,
-            )
+        # map_back_plan has an entry for every ground instance of the compiled
+        # actions, keyed by the string form of the instance (that is the action
+        # name alone when the compiled action has no parameters)
+        map: Dict[str, ActionInstance] = {}
+        for instance_str, original_action_instance in result.map_back_plan.items():
+            map[instance_str] = self.convert(original_action_instance, lifted_problem)[
+                1
+            ]
+
+        def map_back_action_instance(action_instance: ActionInstance) -> ActionInstance:
+            return map[str(action_instance)]
+
         engine_metrics = None
         if bool(result.metrics):
             engine_metrics = dict(result.metrics)
         return unified_planning.engines.CompilerResult(
             problem=problem,
-            map_back_action_instance=partial(
-                unified_planning.engines.compilers.utils.lift_action_instance, map=map
-            ),
+            map_back_action_instance=map_back_action_instance,
             engine_name=result.engine.name,
             metrics=engine_metrics,
             log_messages=[self.convert(log) for log in result.log_messages],
